@@ -546,7 +546,36 @@ func downActivity(r *hx.Rand, ps int) []Op {
 // restarted as a new or the same DB object while the application keeps
 // writing, checkpointing, truncating or deleting the WAL; database file
 // replaced; local state lost or reset.
+// genResetAfterTruncateLagging: the replica lags local level-0 files whose transactions rewrite existing
+// pages; litestream's own TRUNCATE checkpoint empties the WAL with the last sync at the exact WAL end; a
+// run-time reset of the local state (auto-recover) on the live object; then a small write, so that the
+// new WAL is shorter than the cursor recorded in the baseline file fetched from the replica. Continuity
+// cannot be shown there (the in-memory state described the removed files): a snapshot is required.
+func genResetAfterTruncateLagging(r *hx.Rand) History {
+	ps := []int{1024, 4096}[r.Intn(2)]
+	h := History{Cfg: Cfg{PageSize: ps, AutoVacuum: "none", MinCheckpointPageN: 100000, TruncatePageN: 500000}}
+	h.Ops = append(h.Ops, Op{K: "ins", A: 20 + r.Intn(30), B: ps - ps/4}, Op{K: "syncwait"}, Op{K: "rsync"})
+	for i, n := 0, 1+r.Intn(3); i < n; i++ {
+		h.Ops = append(h.Ops, Op{K: "upd", A: 2 + r.Intn(4), B: ps / 2}, Op{K: "sync"})
+	}
+	h.Ops = append(h.Ops, Op{K: "lckpt", S: []string{"TRUNCATE", "TRUNCATE", "RESTART"}[r.Intn(3)]})
+	h.Ops = append(h.Ops, Op{K: "autorecover"})
+	h.Ops = append(h.Ops, Op{K: "ins", A: 1, B: 10})
+	if r.Chance(30) {
+		h.Ops = append(h.Ops, Op{K: "sync"}, Op{K: "ins", A: 1, B: 10})
+	}
+	h.Ops = append(h.Ops, Op{K: "syncwait"}, Op{K: "rsync"})
+	for i, n := 0, r.Intn(3); i < n; i++ {
+		h.Ops = append(h.Ops, genAppOp(r, ps))
+	}
+	h.Ops = append(h.Ops, Op{K: "syncwait"}, Op{K: "rsync"})
+	return h
+}
+
 func GenC04(r *hx.Rand, thorough bool) History {
+	if r.Chance(6) {
+		return genResetAfterTruncateLagging(r)
+	}
 	h := History{Cfg: GenCfg(r, thorough)}
 	h.Cfg.MaxSyncWALBytes = 0
 	if r.Chance(70) {
@@ -1004,9 +1033,27 @@ func genOpenCloseUninitialised(r *hx.Rand) History {
 	return h
 }
 
+// genBusyRetryWindow: the application holds the write lock for between one and two of litestream's busy
+// timeouts (1 s) while litestream checkpoints (write barrier / boundary lock insert into _litestream_lock
+// waits, fails busy, and whatever retries runs while the lock is free again); then ordinary work.
+func genBusyRetryWindow(r *hx.Rand) History {
+	ps := 4096
+	h := History{Cfg: Cfg{PageSize: ps, AutoVacuum: "none", MinCheckpointPageN: 100000, TruncatePageN: 500000}}
+	h.Ops = append(h.Ops, Op{K: "ins", A: 5 + r.Intn(10), B: ps / 2}, Op{K: "syncwait"}, Op{K: "ins", A: 2, B: 100}, Op{K: "sync"})
+	for i, n := 0, 1+r.Intn(2); i < n; i++ {
+		h.Ops = append(h.Ops, Op{K: "cwhold", A: 1150 + r.Intn(700), B: 100},
+			Op{K: "lckpt", S: []string{"PASSIVE", "PASSIVE", "TRUNCATE", "RESTART"}[r.Intn(4)]}, Op{K: "cwait"}, Op{K: "sync"})
+	}
+	h.Ops = append(h.Ops, genAppOp(r, ps), Op{K: "syncwait"})
+	return h
+}
+
 func GenC14(r *hx.Rand, thorough bool) History {
 	if r.Chance(8) {
 		return genOpenCloseUninitialised(r)
+	}
+	if r.Chance(5) {
+		return genBusyRetryWindow(r)
 	}
 	h := GenC01(r, thorough)
 	// also exercise stop/start and snapshots/compactions more often
